@@ -284,6 +284,8 @@ func c18(c *ev.Ctx) {
 			c.Violation(id, "oversize body accepted", map[string]interface{}{"summary": fmt.Sprintf("a %d-statement body (more than 65535 bytes) is accepted but its jumps are truncated: verifier %v, result %s (expected INTEGER:2 or a Prepare error)", stmts, probs, got), "script_statements": stmts})
 		}
 	}
+	// the program in force stays well-formed across a second Prepare (accepted or refused)
+	c20RePrepare(c)
 	// known findings: value-less constructs accepted in value position
 	for _, pr := range []struct{ name, script string }{
 		{"assign-in-condition", "if (a = 1) { t(1); } return 2;"},
